@@ -3,6 +3,7 @@ import Driver.Locals
 import Driver.Iter
 import Driver.Custom
 import Driver.Edit
+import Driver.Lower
 open Driver
 
 def step (line : String) : List String :=
@@ -12,6 +13,7 @@ def step (line : String) : List String :=
   | "compiter" :: rest => runCompIter rest
   | "custom" :: rest => runCustom rest
   | "edit" :: rest => runEdit rest
+  | "lower" :: rest => runLower rest
   | [] => []
   | f :: _ => [s!"{f} ? unknown-family"]
 
